@@ -184,6 +184,7 @@ func genTree(r *simkit.RNG, sc *Scenario, k *knobs) {
 		add(TNode{Root: "ext", Path: "chain2", Kind: "link", Target: "file"})
 		add(TNode{Root: "ext", Path: "dirlink", Kind: "link", Target: "dir"})
 		add(TNode{Root: "ext", Path: "emptyd", Kind: "dir", Mode: 0o755})
+		add(TNode{Root: "ext", Path: "selfloop", Kind: "link", Target: "selfloop"})
 		if k.nestedDeref {
 			add(TNode{Root: "ext", Path: "other", Kind: "dir", Mode: 0o755})
 			add(TNode{Root: "ext", Path: "other/o.txt", Kind: "file", Mode: 0o644, Tok: "OUT-10;"})
@@ -281,7 +282,7 @@ func genTree(r *simkit.RNG, sc *Scenario, k *knobs) {
 				opts = append(opts, "abs-in")
 			}
 			if k.outLinks {
-				opts = append(opts, "out-file", "out-dir", "out-dangle", "sibling-prefix", "case-sibling", "out-abs", "out-chain", "hist-ext", "parent")
+				opts = append(opts, "out-file", "out-dir", "out-dangle", "sibling-prefix", "case-sibling", "out-abs", "out-chain", "hist-ext", "parent", "out-notdir", "out-loop")
 			}
 			if k.hostileLinks {
 				opts = append(opts, "cycle", "self", "loopdir", "fifo", "fifodir", "dircycle")
@@ -330,6 +331,11 @@ func genTree(r *simkit.RNG, sc *Scenario, k *knobs) {
 				nd.Target = up + "../ext/" + simkit.Pick(r, extDirs)
 			case "out-dangle":
 				nd.Target = up + "../ext/missing"
+			case "out-notdir":
+				// runs through a regular file: cannot be followed, for a reason other than "does not exist"
+				nd.Target = up + "../ext/file/child"
+			case "out-loop":
+				nd.Target = up + "../ext/selfloop"
 			case "sibling-prefix":
 				nd.Target = up + "../src-evil/secret"
 			case "case-sibling":
@@ -476,6 +482,12 @@ func genRules(r *simkit.RNG, sc *Scenario, k *knobs) string {
 			p = "  " + p + " "
 		}
 		lines = append(lines, p)
+	}
+	if !k.degenRules && len(lines) > 0 && r.Chance(1, 8) {
+		// one line that cannot be used, among ordinary ones
+		pos := r.Intn(len(lines) + 1)
+		bad := simkit.Pick(r, []string{"notes[1.txt", "[a-", "![", "x[", "*.t[xt"})
+		lines = append(lines[:pos], append([]string{bad}, lines[pos:]...)...)
 	}
 	// a directory rule naming a link to an out-of-tree directory, and a later rule re-including something below it
 	if k.outLinks && r.Chance(1, 3) {
